@@ -12,6 +12,7 @@ enum R1 {
     Partition(usize),
     Get(usize),
     Many(u32),
+    ManyList(Vec<usize>),
     Quantile(u8, u8),
     Quantiles(u8),
     RemoveNanF64(u32),
@@ -23,6 +24,8 @@ struct Case1 {
     pat: Vec<u8>,
     step: isize,
     r: R1,
+    /// None: all pivot sequences; Some(p): the single execution under this pivot policy
+    policy: Option<Policy>,
 }
 
 const QS: [f64; 6] = [0.0, 0.3, 0.5, 0.75, 0.999999, 1.0];
@@ -77,7 +80,11 @@ fn body1(c: &Case1, lx: &mut Local) {
         }
         _ => {
             let vals: Vec<i32> = c.pat.iter().map(|&r| r as i32 * 3 - 4).collect();
-            lx.explore(&PivotMode::All, |lx| {
+            let mode = match c.policy {
+                None => PivotMode::All,
+                Some(p) => PivotMode::Bounded { policy: p, bound: 0 },
+            };
+            lx.explore(&mode, |lx| {
                 let mut h = Host1::new(&vals, c.step, 2, -99);
                 let before = h.memory();
                 let r = guarded(|| {
@@ -92,6 +99,9 @@ fn body1(c: &Case1, lx: &mut Local) {
                         R1::Many(m) => {
                             let ix: Vec<usize> = (0..n).filter(|i| m >> i & 1 == 1).collect();
                             v.get_many_from_sorted_mut(&Array1::from(ix));
+                        }
+                        R1::ManyList(ix) => {
+                            v.get_many_from_sorted_mut(&Array1::from(ix.clone()));
                         }
                         R1::Quantile(qi, s) => {
                             let q = n64(QS[*qi as usize]);
@@ -316,6 +326,118 @@ fn bodyn(c: &CaseN, dev: u32, lx: &mut Local) {
     }
 }
 
+fn shared_body(c: &(Vec<u8>, u8), lx: &mut Local) {
+    use ndarray::{ArcArray1, ArcArray2, CowArray};
+    let (pat, routine) = c;
+    let n = pat.len();
+    lx.nontrivial(n >= 2);
+    let vals: Vec<i32> = pat.iter().map(|&r| r as i32 * 3 - 4).collect();
+    // 2-D variant: two rows, second row reversed
+    let mut v2: Vec<i32> = vals.clone();
+    v2.extend(vals.iter().rev().map(|x| x + 100));
+    let fv2: Vec<f64> = v2.iter().enumerate().map(|(i, &x)| if i % 3 == 1 { f64::NAN } else { x as f64 }).collect();
+    macro_rules! call1 {
+        ($a:expr) => {
+            match routine {
+                0 => {
+                    $a.partition_mut(n / 2);
+                }
+                1 => {
+                    $a.get_from_sorted_mut(n - 1);
+                }
+                2 => {
+                    $a.get_from_sorted_mut(0);
+                }
+                3 => {
+                    $a.get_many_from_sorted_mut(&Array1::from(vec![n - 1, 0]));
+                }
+                4 => {
+                    let _ = $a.quantile_mut(n64(0.5), &Linear);
+                }
+                _ => {
+                    let _ = $a.quantiles_mut(&Array1::from(vec![n64(0.9), n64(0.2)]), &Nearest);
+                }
+            }
+        };
+    }
+    macro_rules! call2 {
+        ($a:expr) => {
+            match routine {
+                6 => {
+                    let _ = $a.quantile_axis_mut(Axis(1), n64(0.5), &Linear);
+                }
+                _ => {
+                    let _ = $a.quantiles_axis_mut(Axis(0), &Array1::from(vec![n64(1.0), n64(0.0)]), &Nearest);
+                }
+            }
+        };
+    }
+    lx.explore(&PivotMode::All, |lx| {
+        let mut obs: Vec<i64> = Vec::new();
+        if *routine <= 5 {
+            // (a) ArcArray sharing its buffer
+            let keep = ArcArray1::from(vals.clone());
+            let mut a = keep.clone();
+            let r = guarded(|| call1!(a));
+            if let Err(m) = r {
+                lx.fail("C03/panic", || format!("routine {} on a shared ArcArray {:?} panicked: {}", routine, vals, m));
+            }
+            lx.check(keep.to_vec() == vals, "C03/shared-handle-modified", || format!("routine {} on one ArcArray handle changed the other handle: {:?} -> {:?}", routine, vals, keep.to_vec()));
+            lx.check(sorted(&a.to_vec()) == sorted(&vals), "C03/lane-multiset-changed", || format!("routine {} on a shared ArcArray: {:?} -> {:?}", routine, vals, a.to_vec()));
+            obs.extend(a.iter().map(|&x| x as i64));
+            // (b) CowArray borrowing an array
+            let base = Array1::from(vals.clone());
+            {
+                let mut cow = CowArray::from(base.view());
+                let r = guarded(|| call1!(cow));
+                if let Err(m) = r {
+                    lx.fail("C03/panic", || format!("routine {} on a borrowing CowArray {:?} panicked: {}", routine, vals, m));
+                }
+                lx.check(sorted(&cow.to_vec()) == sorted(&vals), "C03/lane-multiset-changed", || format!("routine {} on a borrowing CowArray: {:?} -> {:?}", routine, vals, cow.to_vec()));
+            }
+            lx.check(base.to_vec() == vals, "C03/borrowed-array-modified", || format!("routine {} through a CowArray changed the immutably borrowed array: {:?} -> {:?}", routine, vals, base.to_vec()));
+        } else if *routine <= 7 {
+            let keep = ArcArray2::from_shape_vec((2, n), v2.clone()).unwrap();
+            let mut a = keep.clone();
+            let r = guarded(|| call2!(a));
+            if let Err(m) = r {
+                lx.fail("C03/panic", || format!("routine {} on a shared ArcArray2 panicked: {}", routine, m));
+            }
+            lx.check(keep.iter().cloned().collect::<Vec<_>>() == v2, "C03/shared-handle-modified", || format!("routine {} on one ArcArray2 handle changed the other handle: {:?} -> {:?}", routine, v2, keep));
+            let base = Array2::from_shape_vec((2, n), v2.clone()).unwrap();
+            {
+                let mut cow = CowArray::from(base.view());
+                let _ = guarded(|| call2!(cow));
+            }
+            lx.check(base.iter().cloned().collect::<Vec<_>>() == v2, "C03/borrowed-array-modified", || format!("routine {} through a CowArray changed the borrowed 2-D array", routine));
+            obs.extend(a.iter().map(|&x| x as i64));
+        } else {
+            let bits = |v: &[f64]| v.iter().map(|x| x.to_bits()).collect::<Vec<_>>();
+            let keep = ArcArray2::from_shape_vec((2, n), fv2.clone()).unwrap();
+            let mut a = keep.clone();
+            let r = guarded(|| {
+                if *routine == 8 {
+                    let _ = a.quantile_axis_skipnan_mut(Axis(1), n64(0.5), &Linear);
+                } else {
+                    let _ = a.map_axis_skipnan_mut(Axis(1), |mut lane| {
+                        let k = lane.len();
+                        if k >= 2 {
+                            lane.swap(0, k - 1);
+                        }
+                        k
+                    });
+                }
+            });
+            if let Err(m) = r {
+                lx.fail("C03/panic", || format!("routine {} on a shared f64 ArcArray2 panicked: {}", routine, m));
+            }
+            lx.check(bits(&keep.iter().cloned().collect::<Vec<_>>()) == bits(&fv2), "C03/shared-handle-modified", || format!("routine {} on one ArcArray2<f64> handle changed the other handle", routine));
+            obs.extend(a.iter().map(|x| x.to_bits() as i64));
+        }
+        hash_of(&obs)
+    });
+}
+
 fn main() {
     let mut rep = Report::new("C03");
     rep.rule = "case = (routine, content family, view layout inside a sentinel parent, pivot policy); executions = pivot sequences; non-trivial = view is strided/offset (1-D) or any n-D case".into();
@@ -350,7 +472,7 @@ fn main() {
         let steps = steps2.clone();
         rs.into_iter().flat_map(move |r| {
             let pat = pat.clone();
-            steps.clone().into_iter().map(move |s| Case1 { pat: pat.clone(), step: s, r: r.clone() })
+            steps.clone().into_iter().map(move |s| Case1 { pat: pat.clone(), step: s, r: r.clone(), policy: None })
         })
     });
     rep.run_sub(
@@ -358,6 +480,50 @@ fn main() {
         &format!("all weak-order patterns of length 1..={} x strides {:?} x {{partition_mut(p), get_from_sorted_mut(i), get_many_from_sorted_mut(every non-empty subset), quantile_mut(6 q x Linear/Nearest), quantiles_mut, remove_nan_mut(f64, Option<i32>; every mask)}} x ALL pivot sequences", nmax, steps),
         cases,
         body1,
+    );
+
+    // long lanes under adversarial pivot policies (recursion depth ~ n)
+    let nlong = rep.cfg.pick(96, 250);
+    let cases = (13..=nlong).flat_map(move |n| {
+        (0..6usize).flat_map(move |fam| {
+            let pat: Vec<u8> = (0..n)
+                .map(|i| match fam {
+                    0 => i as u8,
+                    1 => (n - 1 - i) as u8,
+                    2 => (if i < n / 2 { 2 * i } else { 2 * (n - 1 - i) + 1 }) as u8,
+                    3 => (i % 2) as u8,
+                    4 => 0u8,
+                    _ => (i % 7) as u8,
+                })
+                .collect();
+            let mut rs: Vec<R1> = vec![R1::Get(0), R1::Get(n - 1), R1::Get(n / 2), R1::Get(n / 3), R1::Get(n - 2), R1::Quantile(2, 0), R1::Quantile(4, 1), R1::Quantiles(0), R1::ManyList(vec![n - 1, 0]), R1::ManyList(vec![n / 2, n / 2 + 1, 1]), R1::ManyList((0..n).step_by(6).collect())];
+            if n <= 40 {
+                rs.extend((0..n).map(R1::Get));
+            }
+            rs.into_iter().enumerate().flat_map({
+                let pat = pat.clone();
+                move |(ri, r)| {
+                    let pat = pat.clone();
+                    Policy::ADVERSARIAL.iter().map(move |&p| Case1 { pat: pat.clone(), step: [1isize, -1, 2][(ri + n) % 3], r: r.clone(), policy: Some(p) }).collect::<Vec<_>>()
+                }
+            })
+        })
+    });
+    rep.run_sub(
+        "long-lanes-adversarial-policies",
+        &format!("every length 13..={} x 6 input families x {{get_from_sorted_mut at the ends / middle / thirds (every index for n<=40), quantile_mut, quantiles_mut, get_many_from_sorted_mut on sparse and dense index lists}} x policies first / last / parity-alternating ends / middle (one execution each, recursion depth up to n-1) on contiguous / reversed / stepped views inside a sentinel parent", nlong),
+        cases,
+        body1,
+    );
+
+    // shared ownership: mutating through one handle must not be visible through another
+    let smax = rep.cfg.pick(4, 5);
+    let scases = (1..=smax).flat_map(weak_orders).flat_map(|pat| (0..10u8).map(move |routine| (pat.clone(), routine)));
+    rep.run_sub(
+        "shared-ownership",
+        &format!("all weak-order patterns of length 1..={} x 10 mutating routines called on (a) an ArcArray that shares its buffer with a second handle and (b) a CowArray borrowing an array; ALL pivot sequences; the other handle / the borrowed array must be unchanged and the mutated handle must hold the same multiset", smax),
+        scases,
+        shared_body,
     );
 
     let thorough = rep.cfg.thorough();
